@@ -81,6 +81,7 @@ void ref_link_imprint(rlink *l, int is_left, int alg, unsigned seed, uint64_t co
 void ref_link_legacy(rlink *l, int is_left, const char *name, uint64_t corr);
 /* metadata: padding_mode 0 = none, 1 = correct padding so that the length is even,
  * payload = [padding] client id [machine id] [seq] [req time] */
+extern uint64_t ref_meta_seqnr;
 void ref_link_meta(rlink *l, int is_left, const char *client, int padding_mode, int with_extra, uint64_t corr);
 
 /* ---------------- base32 / crc32 ---------------- */
